@@ -61,6 +61,9 @@ def priorities(ops):
 def classes_of(ops_or_summary, world):
     """scenario classes a script/summary belongs to (for the non-vacuity counters of the check)"""
     cl = set()
+    nrest = sum(1 for o in ops_or_summary if isinstance(o, dict) and (o.get("restart") is True or o.get("run") == "restart"))
+    if nrest >= 2:
+        cl.add("two_restarts")
     for o in ops_or_summary:
         if not isinstance(o, dict):
             continue
@@ -117,6 +120,7 @@ def execute(ops, geo, workdir, adpt_fac=1, ncpu=2, klist_part=10):
             w.skipped_ops = len(ops) - j - 1
             break
     shutil.rmtree(workdir, ignore_errors=True)
+    w.geo.release()
     return w.events, errs, w
 
 
@@ -187,6 +191,7 @@ def execute_random(geo, workdir, rng, niter, adpt_fac=1, ncpu=2, allow_par=True,
             if land + n >= niter and rng.random() < 0.7:
                 break
     shutil.rmtree(workdir, ignore_errors=True)
+    w.geo.release()
     return w.events, errs, w, summary
 
 
